@@ -4,6 +4,7 @@ from vlib import common
 
 def key_fn(case, obs, verdict):
     # cell <kind> <preload> <limit> <passes> <n> <consumers> <cancel> [<eof> [<fs>]]
+    # sized <the same nine fields> <maxammosize> <pads> <sizes>
     f = case.split(" ")
     o = obs.split(" ")
     if f[0] == "engine":
